@@ -28,6 +28,8 @@ func c05HostValues() []object.Object {
 		&object.Boolean{Value: true}, &object.Boolean{Value: false}, &object.Null{},
 		&object.Integer{Value: 0}, &object.Integer{Value: 1}, &object.Integer{Value: -1},
 		&object.Float{Value: 0}, &object.Float{Value: 0.25}, &object.Float{Value: -0.5},
+		&object.Float{Value: math.Inf(1)}, &object.Float{Value: math.Inf(-1)}, &object.Float{Value: math.MaxFloat64}, &object.Float{Value: math.SmallestNonzeroFloat64}, &object.Float{Value: math.Copysign(0, -1)},
+		&object.Integer{Value: math.MaxInt64}, &object.Integer{Value: math.MinInt64},
 		&object.String{Value: ""}, &object.String{Value: "x"}, &object.String{Value: "false"}, &object.String{Value: "0"},
 		&object.Array{Elements: []object.Object{}}, &object.Array{Elements: []object.Object{&object.Boolean{Value: false}}},
 		&object.Hash{Pairs: map[object.HashKey]object.HashPair{}},
@@ -106,15 +108,21 @@ func c05(c *ev.Ctx) {
 	add("split", `split("a,b", ",")`, true, "other")
 	add("float zero", `float("0")`, false, "other")
 	add("string of false", `string(false)`, true, "other")
+	add("float infinity", `float("Inf")`, true, "other")
+	add("float minus infinity", `float("-Inf")`, false, "other")
+	add("overflowing power", `(10.0 ** 400)`, true, "other")
+	add("sprintf of a blank", `sprintf("%s", " ")`, true, "other")
 	// map fields (reflection allocates fresh objects)
 	mapObj := map[string]interface{}{"MBt": true, "MBf": false, "MNil": nil, "MI0": 0, "MI5": 5, "MIn": -2, "MF0": 0.0, "MF1": 1.5, "MS0": "", "MSx": "x",
-		"MA0": []interface{}{}, "MA1": []interface{}{false}, "MH0": map[string]interface{}{}, "MH1": map[string]interface{}{"k": false}, "MI64": int64(9)}
+		"MA0": []interface{}{}, "MA1": []interface{}{false}, "MH0": map[string]interface{}{}, "MH1": map[string]interface{}{"k": false}, "MI64": int64(9),
+		"MFinf": math.Inf(1), "MFninf": math.Inf(-1), "MFtiny": 5e-324, "MFhuge": 1.7e308, "MSblank": " ", "MStab": "\t\n"}
 	for _, f := range []struct {
 		n string
 		t bool
 		k string
 	}{{"MBt", true, "BOOLEAN"}, {"MBf", false, "BOOLEAN"}, {"MNil", false, "NULL"}, {"MI0", false, "other"}, {"MI5", true, "other"}, {"MIn", false, "other"}, {"MF0", false, "other"}, {"MF1", true, "other"},
-		{"MS0", false, "other"}, {"MSx", true, "other"}, {"MA0", false, "other"}, {"MA1", true, "other"}, {"MH0", false, "other"}, {"MH1", true, "other"}, {"MI64", true, "other"}, {"MAbsent", false, "NULL"}} {
+		{"MS0", false, "other"}, {"MSx", true, "other"}, {"MA0", false, "other"}, {"MA1", true, "other"}, {"MH0", false, "other"}, {"MH1", true, "other"}, {"MI64", true, "other"}, {"MAbsent", false, "NULL"},
+		{"MFinf", true, "other"}, {"MFninf", false, "other"}, {"MFtiny", true, "other"}, {"MFhuge", true, "other"}, {"MSblank", true, "other"}, {"MStab", true, "other"}} {
 		add("map field "+f.n, f.n, f.t, f.k)
 	}
 	// host function results
